@@ -54,6 +54,15 @@ def neighbours(s: str):
             out.add(s[:i] + la + s[i + 1:])
     if "ss" in s:
         out.add(s.replace("ss", "ß"))
+    # byte-level neighbours: bit 5 (the ASCII case bit) flipped in ANY byte, letters or not ('-' <-> '\r', '[' <-> '{',
+    # digits <-> control characters, UTF-8 continuation bytes: "é" <-> "É"), when the result is still valid UTF-8
+    b = s.encode("utf-8")
+    for i in range(len(b)):
+        for mask in (0x20, 0x40, 0x01):
+            try:
+                out.add((b[:i] + bytes([b[i] ^ mask]) + b[i + 1:]).decode("utf-8"))
+            except UnicodeDecodeError:
+                pass
     out.discard(s)
     return out
 
@@ -208,7 +217,7 @@ def fromstr_inputs(it: Item, info, rng, flipcap=32, nrandom=8):
             put(sp, tag)
             for f in flips(sp, rng, flipcap):
                 put(f, "near-flip")
-            for nb in sorted(neighbours(sp))[: (flipcap * 2)]:
+            for nb in sorted(neighbours(sp))[: (flipcap * 4 + 64)]:
                 put(nb, "near-edit")
             put(" " + sp, "near-pad")
             put(sp + " ", "near-pad")
@@ -266,3 +275,34 @@ def model_query(prop: str, items, queries_per_item):
             idx.append(row)
     obs = R.run_model(path)
     return [[obs.get(n, "") for n in row] for row in idx]
+
+
+def real_structure(prop: str, items, derive="EnumString"):
+    """structural summaries of the REAL generated code (harness/genprobe `struct`), per candidate definition;
+    None when the probe cannot be built"""
+    from .defs import render_item
+    binp, err = R.build_genprobe()
+    if binp is None:
+        return [None] * len(items)
+    lines = ["struct %d %s %s" % (k, derive, hx(render_item(it, []))) for k, it in enumerate(items)]
+    obs, died = R.run_genprobe(binp, lines, os.path.join(R.WORK, prop, "struct"))
+    return [obs.get(k) for k in range(len(items))]
+
+
+def literals_of_structure(summary):
+    """every string literal the real generated EnumString code compares the input with (phf keys and arm literals)"""
+    out = []
+    if not summary or not summary.startswith("phf="):
+        return out
+    parts = dict(p.split("=", 1) for p in summary.split("|"))
+    for blk in (parts.get("phf", "[]"), parts.get("arms", "[]")):
+        for e in blk.strip("[]").split(";"):
+            if not e:
+                continue
+            fields = e.split(":")
+            hx_ = fields[0] if blk is parts.get("phf") else fields[1]
+            try:
+                out.append(bytes.fromhex(hx_[1:]).decode("utf-8"))
+            except (ValueError, UnicodeDecodeError):
+                pass
+    return out
